@@ -31,7 +31,7 @@ ASSUMPTIONS = [
     "nesting depth <= 40 keeps the harness and the library far from the 1000-frame interpreter limit",
     "the hang detector is a clock used as a signal only after two confirmations (20 s, then 120 s; normal cases take < 50 ms)",
 ]
-BUDGET = {"quick": 220, "thorough": 3500}
+BUDGET = {"quick": 450, "thorough": 4500}
 
 observe.register_formats()
 BIG = 10 ** 400
